@@ -141,7 +141,7 @@ func c20corpus() []c20prog {
 		// the names of registered types are bound (and interned) while the interpreter is constructed
 		`(list (- (symnum (quote int64)) (symnum (quote string))) (< (quote rune) (quote float64)) (- (symnum (quote bool)) (symnum (quote uint8))) (< (quote snoopy) (quote hornet)) (< (quote vall) (quote vinner)))`,
 		// a Go method returning a struct registered under two names, directly and held by value
-		`(def a (vall str:"x")) (list (_method a MakeOther:) (_method a OtherByValue:) (_method a MakeInner:))`,
+		`(def a (vall str:"x" v:(vinner s:"v" n:1))) (list (_method a MakeTwo:) (_method a HolderOfTwo:) (_method a MakeInner:) (_method a EchoSelf:))`,
 		// decoded data whose member names the interpreter has never seen: their symbol numbers are assigned while decoding
 		// (differences of numbers: absolute numbers depend on the process history, which is the recorded finding gen04)
 		`(def h (unjson (raw "{\"Atype\":\"hash\", \"nqa\":1, \"nqb\":{\"Atype\":\"hash\", \"nqz\":1, \"nqy\":2, \"zKeyOrder\":[\"nqz\",\"nqy\"]}, \"nqc\":[1, 2], \"nqd\":4, \"zKeyOrder\":[\"nqd\",\"nqa\",\"nqb\",\"nqc\"]}"))) (list (str h) (keys h) (- (symnum (str2sym "nqa")) (symnum (str2sym "nqd"))) (- (symnum (str2sym "nqz")) (symnum (str2sym "nqc"))) (< (str2sym "nqa") (str2sym "nqc")) (< (str2sym "nqy") (str2sym "nqd")))`,
